@@ -45,6 +45,17 @@ CHECKS = {
     "C01": data(),
     "C05": admin(),
     "C06": admin(),
+    "C08": {
+        "level": "exploration",
+        "budget": {"quick": 45, "thorough": 900},
+        "min_histories": {"quick": 20, "thorough": 500},
+        "rule": ("Seeded histories on one topic (1-8 partitions, growing and shrinking) and one consumer group with 1-6 member connections: join, leave, abrupt disconnect, reconnect, "
+                 "create/delete partitions, sends to all partitions, next + auto-commit polls without partition id by members in a seeded sequential order, then a drain. "
+                 "evaluations = histories; non-trivial = messages were delivered to the group and membership or partition count changed in between; "
+                 "distinct_nontrivial = distinct (cache class, partitions, members, collapsed event sequence)."),
+        "assumptions": COMMON_ASSUMPTIONS + ["Members poll sequentially in a seeded order (the statement quantifies over poll orders, not over concurrent polls).",
+                                             "A dropped socket is noticed by the server on its next read: the disconnect clause waits a bounded number of retries (200 x 5 ms)."],
+    },
     "C09": {
         "level": "exploration",
         "budget": {"quick": 40, "thorough": 600},
